@@ -171,6 +171,14 @@ class Env:
             return st.tensor(fs)
         return self._mk(d, b)
 
+    def angle_base(self, h):
+        """declare h (a 0-d / 1-element tensor) as the base angle of this obligation (sym only)"""
+        if self.mode == 'sym':
+            AT.angle_base(st._T(h)._a.reshape(-1)[0])
+
+    def eps(self, like):
+        return self.T.finfo(like.dtype).eps
+
     def const(self, value):
         if self.mode == 'sym': return st.tensor(value)
         return self.T.tensor(value, dtype=self._dt)
@@ -251,6 +259,8 @@ class Env:
         for idx in np.ndindex(shape):
             d = Frac.of(la[idx]) - Frac.of(ra[idx])
             vals.append(Frac.of(la[idx]))
+            if d.num.is_zero(): continue
+            d = Frac(A.reduce_poly(d.num), d.den)
             if d.num.is_zero(): continue
             if any(f.vars() & vids for f in d.den):
                 worst = (idx, 'denominator depends on the expansion variables'); break
